@@ -110,6 +110,11 @@ type frame struct {
 // ---------------------------------------------------------------------------
 // Ctx: one path execution
 
+type numberText struct {
+	chars []*Term
+	val   *Term
+}
+
 type Ctx struct {
 	Prog      *ssa.Program
 	Ex        *Explorer
@@ -120,6 +125,11 @@ type Ctx struct {
 	BigW      int // width of big.Int model in BV mode
 	// digitChars: character terms made by bigText -> the digit value they spell
 	digitChars map[*Term]*Term
+	// shortCache: abstract shortest decimal per float term (models.go); forceIntText: bigText called by a model
+	shortCache   map[string]*shortDec
+	forceIntText bool
+	// numberTexts: first character term of a decimal text written by a model -> the text and its value
+	numberTexts map[*Term]numberText
 
 	pc     []*Term
 	pcSet  map[string]bool
